@@ -23,6 +23,7 @@ catalogue by the self-test in vp.checks.c02).
 
 from __future__ import annotations
 
+import hashlib
 import itertools
 import json
 from fractions import Fraction
@@ -52,7 +53,7 @@ def _particle(name: str, spin: str, mass: float, parity: int, width: float = 0.1
 
     return Particle(
         name=name,
-        pid=abs(hash((name, spin, mass, parity))) % 10**7 + 100,
+        pid=int(hashlib.sha256(repr((name, spin, mass, parity)).encode()).hexdigest()[:6], 16) + 100,
         spin=float(frac(spin)),
         mass=mass,
         width=width,
